@@ -14,13 +14,14 @@ RULE = ("seeded histories (4-30 operations) over up to three real directories (S
         "links to the same object, unknown future caps with and without ro./imm. prefixes); colliding and NFC-equivalent Unicode names; nested JSON metadata; a "
         "write-cap client edits, a read-cap client observes after every operation against a name->(caps, metadata, timestamps) model; "
         "non-trivial = >=3 distinct probe kinds; distinct = probe-count fingerprint")
+RULE += '; in 35% of runs a third traversal runs while every server fails one read: it may fail, but a result reported as success must be complete'
 TECHNIQUE = "deterministic simulation: seeded edit histories on real directory nodes vs name-map reference model, invariants after every step"
 LEVEL_TEXT = "seeded search over edit histories and delivery schedules with a step-by-step reference model; sampling, not enumeration"
 LEVEL_NOTE = ("real: dirnode (Adder/Deleter/MetadataSetter, pack/unpack, deep traversal), nodemaker, mutable/immutable file stacks, storage servers; "
               "stub: reactor, foolscap wire, os.urandom, RSA keygen (pool). C18/C19/C21 have no schedule or fault in their statement: they are decided as "
               "invariants over the states that edit histories reach (DESIGN §4)")
 REAL = ["allmydata.dirnode", "allmydata.nodemaker", "allmydata.unknown", "mutable.*", "immutable.*", "storage.server"]
-STUB = ["reactor/time", "foolscap transport (SimNet/SimRef)", "os.urandom", "RSA keygen (pool)"]
+STUB = ["reactor/time", "foolscap transport (SimNet/SimRef; per-connection FIFO; in half of the runs arrivals are batched: several messages handed over before queued zero-delay turns run)", "os.urandom", "RSA keygen (pool)"]
 ASSUMPTIONS = ["one writing client at a time (concurrent directory edits are C12/C13)"]
 
 
